@@ -15,7 +15,8 @@
 //!     point ever), `none` no text repeated within 10 passes; `docs` the Docs of ALL passes are equal once pad
 //!     nodes are removed (runs of sibling hard lines counted once); `shape` the aligner call traces of all passes are equal up to token positions; `tie` see below.
 //! * `layout <id> <opt> <hex src>`  impl = `reparse=… tokens=… comments=… [sv=…]`, oracle all `ok` (C09);
-//!     `tokens=BAD:embed-trailing-ws`: the only token change is trailing blanks trimmed inside multi-line tokens.
+//!     `tokens=BAD:embed-trailing-ws` / `BAD:embed-token-position` (or both joined by `+`): the only token changes
+//!     are the two known alterations of embedded foreign code (see `layout_verdict`).
 //! * `tie <id> <pass>`              impl = `shim=… pads=… render=…`, oracle all `ok`: the traced build of
 //!     formatter.rs (hx-fmt-traced) gives byte-identical output, the pad nodes of the real Doc are exactly
 //!     the additions of the real aligner for the tokens in walk order, re-rendering the tapped Doc gives the output.
@@ -614,7 +615,7 @@ fn norm_comment(s: &str) -> String {
     s.split('\n').map(|l| l.trim_end_matches([' ', '\t', '\r'])).collect::<Vec<_>>().join("\n").trim_end().to_string()
 }
 
-fn layout_verdict(src_parser: &Parser, out: &str) -> (String, Option<Parser>) {
+fn layout_verdict(src_parser: &Parser, src: &str, out: &str) -> (String, Option<Parser>) {
     let b = |x: bool| if x { "ok" } else { "BAD" };
     let Some(p2) = emitctx::parse_quiet(out, "f.veryl") else {
         return ("reparse=BAD tokens=? comments=?".into(), None);
@@ -629,21 +630,94 @@ fn layout_verdict(src_parser: &Parser, out: &str) -> (String, Option<Parser>) {
     if !tokens && std::env::var("HX_DUMP").is_ok() {
         let (a, b) = (strip_trailing_seps(&t1), strip_trailing_seps(&t2));
         let k = a.iter().zip(b.iter()).position(|(x, y)| x != y).unwrap_or(a.len().min(b.len()));
+        for (tx, c, t) in s1.iter().filter(|x| !x.1).skip(k.saturating_sub(1)).take(4) {
+            eprintln!("  src token {:?} comment={} line={} column={} pos={} length={}", tx.chars().rev().take(12).collect::<String>().chars().rev().collect::<String>(), c, t.line, t.column, t.pos, t.length);
+        }
         eprintln!("TOKENS differ at {k} of {}/{}: {:?} vs {:?}", a.len(), b.len(), &a[k.saturating_sub(2)..(k + 3).min(a.len())], &b[k.saturating_sub(2)..(k + 3).min(b.len())]);
     }
-    // signature of the known defect: the ONLY token differences are trailing blanks trimmed inside multi-line
-    // tokens (embedded foreign code: `strip_trailing_whitespace` runs over the whole rendered text)
-    let tws = !tokens && {
+    // signatures of the two known defects that change the TEXT of a multi-line token (embedded foreign code):
+    // * `embed-trailing-ws`: `strip_trailing_whitespace` runs over the whole rendered text, so blanks are trimmed
+    //   where a line ENDS inside the token;
+    // * `embed-token-position`: the lexer reports the token that follows an embed-content token ending in a
+    //   newline one line too early and too far right; `Formatter::unformat_embed_items` rebuilds the gap from these
+    //   positions and writes spaces instead of nothing — the content token grows by blanks after its last newline.
+    //   Confirmed independently: some token of the source has (line, column) != the position recomputed from `pos`.
+    let mut kinds: std::collections::BTreeSet<&'static str> = std::collections::BTreeSet::new();
+    if !tokens {
         let (a, bb) = (strip_trailing_seps(&t1), strip_trailing_seps(&t2));
-        // blanks are trimmed only where a line of the token ENDS inside it (not after its last line)
         let trim = |x: &str| {
             let v: Vec<&str> = x.split('\n').collect();
             let n = v.len();
-            v.iter().enumerate().map(|(k, l)| if k + 1 < n { l.trim_end_matches([' ', '\t']) } else { *l }).collect::<Vec<_>>().join("\n")
+            // a line of the token ends in "\n" or "\r\n" (the renderer trims before whichever its newline string is)
+            v.iter()
+                .enumerate()
+                .map(|(k, l)| {
+                    if k + 1 == n {
+                        l.to_string()
+                    } else if let Some(body) = l.strip_suffix('\r') {
+                        format!("{}\r", body.trim_end_matches([' ', '\t']))
+                    } else {
+                        l.trim_end_matches([' ', '\t']).to_string()
+                    }
+                })
+                .collect::<Vec<_>>()
+                .join("\n")
         };
-        a.len() == bb.len() && a.iter().zip(bb.iter()).all(|(x, y)| x == y || (x.contains('\n') && trim(x) == *y))
+        let mispositioned = s1.iter().any(|(_, _, t)| {
+            let before = &src[..(t.pos as usize).min(src.len())];
+            let line = 1 + before.matches('\n').count() as u32;
+            let col = 1 + before.rsplit('\n').next().unwrap_or("").chars().count() as u32;
+            (t.line, t.column) != (line, col)
+        });
+        if a.len() != bb.len() {
+            kinds.insert("other");
+        } else {
+            for (x, y) in a.iter().zip(bb.iter()) {
+                if x == y {
+                    continue;
+                }
+                // line by line: an interior line may have lost its trailing blanks (before "\n" or "\r\n"); the
+                // last line (after the final newline of the token) may have gained blanks if it was empty
+                let (lx, ly): (Vec<&str>, Vec<&str>) = (x.split('\n').collect(), y.split('\n').collect());
+                if lx.len() < 2 || lx.len() != ly.len() {
+                    kinds.insert("other");
+                    continue;
+                }
+                let n = lx.len();
+                let mut ok = true;
+                let (mut tws, mut pos) = (false, false);
+                for k in 0..n {
+                    if lx[k] == ly[k] {
+                        continue;
+                    }
+                    if k + 1 < n && trim(&format!("{}\n", lx[k])) == format!("{}\n", ly[k]) {
+                        tws = true;
+                    } else if k + 1 == n && lx[k].is_empty() && mispositioned && ly[k].chars().all(|c| c == ' ') {
+                        pos = true;
+                    } else {
+                        ok = false;
+                    }
+                }
+                if !ok {
+                    kinds.insert("other");
+                } else {
+                    if tws {
+                        kinds.insert("embed-trailing-ws");
+                    }
+                    if pos {
+                        kinds.insert("embed-token-position");
+                    }
+                }
+            }
+        }
+    }
+    let tv = if tokens {
+        "ok".to_string()
+    } else if kinds.contains("other") || kinds.is_empty() {
+        "BAD".to_string()
+    } else {
+        format!("BAD:{}", kinds.into_iter().collect::<Vec<_>>().join("+"))
     };
-    let tv = if tokens { "ok" } else if tws { "BAD:embed-trailing-ws" } else { "BAD" };
     (format!("reparse=ok tokens={} comments={}", tv, b(c1 == c2)), Some(p2))
 }
 
@@ -670,7 +744,7 @@ fn run_case(log: &mut Log, id: u64, src: &str, opt: &Opt, b: &Budget, label: &st
         }
     };
     // ---- C09
-    let (mut layout, p_out) = layout_verdict(&p1.parser, &p1.out);
+    let (mut layout, p_out) = layout_verdict(&p1.parser, src, &p1.out);
     let _ = &mut layout;
     log.push3(format!("layout {id:x} {o} {hexsrc}"), layout.clone(), "reparse=ok tokens=ok comments=ok".into());
     if layout != "reparse=ok tokens=ok comments=ok" {
@@ -993,6 +1067,24 @@ pub fn main(opts: &Opts) -> i32 {
                         let opt = *r.pick(&sets);
                         log.count(&format!("opt_width_{}", opt.width));
                         run_case(&mut log, id, src, &opt, &b, "orig");
+                        id += 1;
+                    }
+                }
+                // 1b. every testcase with a comment after EVERY separator (and optional trailing separators added):
+                // list walkers take comments from the separator tokens; 1c. multi-byte text in every string literal
+                for (name, src) in &corpus {
+                    let m = emitctx::separator_mutant(src, name, true).or_else(|| emitctx::separator_mutant(src, name, false));
+                    if let Some(m) = m {
+                        log.count("separator_mutants");
+                        run_case(&mut log, id, &m, &Opt::DEFAULT, &b, "sepmut");
+                        id += 1;
+                        let opt = *r.pick(&sets);
+                        run_case(&mut log, id, &m, &opt, &b, "sepmut");
+                        id += 1;
+                    }
+                    if let Some(m) = emitctx::mb_strings_mutant(src, name) {
+                        log.count("mb_string_mutants");
+                        run_case(&mut log, id, &m, &Opt::DEFAULT, &b, "mbstr");
                         id += 1;
                     }
                 }
